@@ -63,6 +63,7 @@ def run(chk, repo, tier):
     run_f8(chk, repo)
     run_f9(chk, repo)
     run_f10_f11(chk, repo)
+    run_f12(chk, repo)
 
 
 # bare-statement calls whose dropped result was read and confirmed harmless
@@ -527,3 +528,24 @@ def run_f10_f11(chk, repo):
                                   witness='mu_reference_model applied twice: the "already mu-referenced" test is never true, the '
                                           'second call defines mu_1 = 0 and CL = exp(ETA_1 + 2*mu_1)')
     chk.instance(F11, 'membership tests against free_symbols/atoms/args examined', n=n11)
+
+
+def run_f12(chk, repo):
+    F12 = chk.rule('F12', 'a dose amount that becomes an initial amount is scaled by the bioavailability of its compartment',
+                   floor=1)
+    om = repo.module('pharmpy.modeling.odes')
+    f = om.functions.get('get_initial_conditions')
+    if f is None:
+        raise AnalysisError('get_initial_conditions not found')
+    sites = [a for a in ast.walk(f.node) if isinstance(a, ast.Assign) and isinstance(a.targets[0], ast.Subscript)
+             and any(isinstance(x, ast.Attribute) and x.attr == 'amount' and 'doses' in unparse(x.value) for x in ast.walk(a.value))]
+    if not sites:
+        raise AnalysisError('F12: assignment of the dose amount to an initial condition not found')
+    for a in sites:
+        ok = any(isinstance(x, ast.Attribute) and x.attr == 'bioavailability' for x in ast.walk(a.value))
+        chk.instance(F12, f'get_initial_conditions: `{unparse(a)[:80]}` uses the bioavailability: {ok}')
+        if not ok:
+            chk.violation(F12, om.rel, f.name, unparse(a)[:100],
+                          'the amount that enters the compartment is dose * F; the closed-form solution built from these initial '
+                          'conditions ignores F', line=a.lineno,
+                          witness='add_bioavailability(pheno) then solve_ode_system: A_CENTRAL(t) = AMT*exp(-CL*t/V) without F1')
